@@ -243,7 +243,7 @@ def load_lp_cases(trace):
                 cases[cid] = "".join(cur)
             cid = line.split()[1]
             cur = [line]
-        elif cid is not None and line.startswith(("SEND", "RECV")):
+        elif cid is not None and line.startswith(("SEND", "RECV", "ORDER")):
             cur.append(line)
     if cid is not None:
         cases[cid] = "".join(cur)
@@ -304,6 +304,46 @@ def part(R):
             "6-byte PIT tokens naming thread = count, bit-flipped / truncated / extended valid frames, nested LpPackets, IDLE frames, random bytes); "
             "non-trivial = at least 3 frames and (a delivery or at least 8 frames); distinct by MD5 of the canonical case")
     R.coverage["rule"] = (R.coverage.get("rule", "") + " | receive path: " + rule).strip(" |")
+
+
+def replay_generic(R, path, props_pid):
+    """bin/check Cxx --replay <file>: rebuild the harness from the current tree and re-run exactly the recorded case."""
+    import json
+    d = json.load(open(path))
+    case = d.get("case") or d.get("first_divergence", {}).get("case") or d.get("last_case") or ""
+    if not case.strip():
+        print("replay file has no case text"); return 2
+    ok, test_exe, runner = prepare(R, props_pid)
+    if not ok:
+        return R.finish()
+    ops = os.path.join(R.work, "replay.ops")
+    open(ops, "w").write(case if case.endswith("\n") else case + "\n")
+    env = vlib.goenv()
+    if case.lstrip().startswith("LPCASE"):
+        trace = os.path.join(R.work, "replay-lp.trace")
+        env.update(VERIF_OPS=ops, VERIF_OUT=trace, VERIF_SEED=str(d.get("seed", 1)))
+        rc, out = vlib.sh([test_exe, "-test.run", "TestLpTrace$", "-test.count=1"], env=env, timeout=600)
+        print(out[-800:] if rc else "harness ok")
+        need, table = trace + ".need", trace + ".table"
+        run_runner(runner, ["lp", "1", trace, "-", need])
+        e2 = vlib.goenv(); e2.update(VERIF_IN=need, VERIF_OUT=table)
+        vlib.sh([test_exe, "-test.run", "TestClassify$", "-test.count=1"], env=e2, timeout=300)
+        rc, out = run_runner(runner, ["lp", "1", trace, table])
+    else:
+        trace = os.path.join(R.work, "replay-stream.trace")
+        app = " app-" in case.split("\n")[0]
+        env.update(VERIF_OPS=ops, VERIF_OUT=trace, VERIF_KINDS="wf,adv")
+        rc, out = vlib.sh([test_exe, "-test.run", "TestAppTrace$" if app else "TestStreamTrace$", "-test.count=1"], env=env, timeout=600)
+        print(out[-800:] if rc else "harness ok")
+        rc, out = run_runner(runner, ["app", trace] if app else ["stream", stream_guard(), trace])
+    bad = [l for l in out.split("\n") if l.startswith(("ORACLE", "DIVERGE"))]
+    print("\n".join(l[:400] for l in out.split("\n") if l))
+    print("REPLAY: %s" % ("reproduced (%d finding line(s))" % len(bad) if bad else "not reproduced on the current tree"))
+    return 1 if bad else 0
+
+
+def replay(R, path):
+    return replay_generic(R, path, "C04_face")
 
 
 def run(R):
